@@ -181,6 +181,7 @@ PROPS = {
             B("w_expr.cpp", "expr", quick=14, thorough=240, params="faults=1", oracles=["c01."] + RT_LIVE),
             B("w_expr.cpp", "expr", quick=8, thorough=120, params="faults=0", oracles=["c01."] + RT_LIVE),
             B("w_expr.cpp", "expr", quick=6, thorough=90, params="faults=1,more=2,wany=1", oracles=["c01."] + RT_LIVE),
+            B("w_expr.cpp", "expr", quick=4, thorough=60, params="faults=1,syncw=1,more=2", oracles=["c01."] + RT_LIVE),  # a third of the runs consume the expression with sync_wait()
             # scopes: the attach/nest/future operations arbitrate "who completes the receiver" between the child and two stop paths
             B("w_scope.cpp", "scope_v1", quick=4, thorough=60, oracles=["c01.", "c08.double", "c08.join-double", "c08.join-lost", "c09.outcome"] + RT_LIVE),
             B("w_scope.cpp", "scope_v2", quick=3, thorough=45, oracles=["c01.", "c08.double", "c08.join-double", "c08.join-lost", "c09.outcome"] + RT_LIVE),
@@ -231,9 +232,10 @@ PROPS = {
             B("w_expr.cpp", "expr", quick=8, thorough=120, params="faults=0,wany=1", oracles=["c05.", "c01.", "c02.", "c04."] + RT_LIVE),
             B("w_expr.cpp", "expr", quick=6, thorough=90, params="faults=1,wany=1", oracles=["c05.", "c01.", "c02.", "c04."] + RT_LIVE),
             B("w_expr.cpp", "expr", quick=6, thorough=90, params="faults=1,more=2", oracles=["c05.", "c01.", "c02.", "c04."] + RT_LIVE),
+            B("w_expr.cpp", "expr", quick=4, thorough=60, params="faults=1,syncw=1", oracles=["c05.", "c01.", "c02."] + RT_LIVE + RT_MEM),  # sync_wait() returns exactly the root's result
         ],
         level_text=("Seeded sender-interpreter runs: a random expression tree (depth<=4, <=12 nodes, <=8 scripted leaves) over the real library adaptors, each node re-erased through a harness any_snd so that every edge is a tap; leaves complete inline or later on two actor threads with value/error/done and react to stop or ignore it; an external stop request is placed before start, after k yields or when a chosen leaf has started; faults: throwing callables, a throwing k-th Val copy, spurious weak-CAS failures and wake-ups; the root op state is destroyed inside the root receiver's completion in most runs. The wany=1 batches add when_any (2-3 children) to the node set: the result must be that of the first child to complete - value, error or done - where 'first' is decided by the tap order (overlapping completions: any of them), done is accepted when a stop request could be visible; its losers must see the stop request (C04 oracle). C05 oracles: a local reference model evaluated at every tap instance from the *observed* child outcomes: then/upon_*/let_* fire exactly on their channel and forward the others, throwing callables become set_error(that exception), sequence/let/finally start the next step only after the previous completed and short-circuit, when_all yields all values or the first error/done (overlapping completions: either), stop_when the source's result, done_as_optional/materialize round trips, via/on forward (done allowed only when a stop could be visible); callable invocation counts equal matching child completions."),
-        level_note=('Trusted: as C01; the model encodes doc/api_reference.md plus the precedence rules read from the code (Appendix C of DESIGN.md). sync_wait is not in the interpreter; the more=1 batches add repeat_effect_until (1-3 rounds, optionally a throwing predicate), defer, let_value_with, let_value_with_stop_token, allocate, into_variant, variant_sender and with_allocator as (transparent) nodes.'),
+        level_note=('Trusted: as C01; the model encodes doc/api_reference.md plus the precedence rules read from the code (Appendix C of DESIGN.md). sync_wait consumes the expression in a third of the runs of the syncw=1 batch (no stop token, its own scheduler); the more=1 batches add repeat_effect_until (1-3 rounds, optionally a throwing predicate), defer, let_value_with, let_value_with_stop_token, allocate, into_variant, variant_sender and with_allocator as (transparent) nodes.'),
         real=["just/just_error/just_done, then, upon_error, upon_done, let_value, let_error, let_done, finally, sequence, when_all (2-3), stop_when, unstoppable, via, on, with_query_value, materialize+dematerialize, done_as_optional, let_value_with_stop_source", "single_thread_context/manual_event_loop, inline_scheduler", "inplace_stop_source, inplace_stop_token_adapter, fused_stop_source"],
         stub=["harness leaves, taps and erased any_snd plumbing (kit/expr.hpp)", "kit::sim_stop_source", "pthread layer, heap (usim)"],
     ),
@@ -343,6 +345,8 @@ PROPS = {
             B("w_bulk.cpp", "bulk", cfg="S17r", quick=4, thorough=60, oracles=["c17."] + RT_ALL),
             B("w_bulk.cpp", "find_if", params="parsched=1", quick=5, thorough=90, oracles=["c17."] + RT_ALL),
             B("w_bulk.cpp", "bulk", params="parsched=1", quick=4, thorough=60, oracles=["c17."] + RT_ALL),
+            B("w_bulk.cpp", "bulk", params="bthrow=1", quick=3, thorough=45, oracles=["c17."] + RT_ALL),  # a per-element function that throws at a drawn index: set_error, nothing after it
+            B("w_bulk.cpp", "bulk", cfg="S17r", params="bthrow=1", quick=2, thorough=30, oracles=["c17."] + RT_ALL),
         ],
         level_text=("Seeded runs of bulk_join(bulk_transform(bulk_schedule(sched, n), f, policy)) with n drawn from {0, 1, 2, around the "
                     "cancellation chunk size 15/16/17, 31-33, 47-49, 64, 100, random < 130, 100-1100}, all four execution policies, inline / "
@@ -492,6 +496,10 @@ PROPS = {
         batches=[
             B("w_expr.cpp", "expr", cfg="S17r", quick=6, thorough=90, params="faults=1", oracles=["c01.", "c02.", "c04.", "c05.", "c12.", "c20."] + RT_ALL),
             B("w_expr.cpp", "expr", cfg="S20d", quick=6, thorough=90, params="faults=1", oracles=["c20."]),
+            B("w_expr.cpp", "expr", cfg="S20d", quick=3, thorough=45, params="faults=1,syncw=1", oracles=["c20."]),
+            # bulk: set_next is the one receiver signal that may throw; the injected async-stack wrappers (debug builds) must let it through exactly like a release build
+            B("w_bulk.cpp", "bulk", cfg="S20d", params="bthrow=1", quick=3, thorough=45, oracles=["c17.", "c20."] + RT_ALL),
+            B("w_bulk.cpp", "bulk", cfg="S17rv", params="bthrow=1", quick=2, thorough=30, oracles=["c17.", "c20."] + RT_ALL),  # sync_wait installs and removes the initial async stack root
             B("w_expr.cpp", "expr", cfg="S20r", quick=0, thorough=90, params="faults=1", oracles=["c01.", "c02.", "c04.", "c05.", "c12.", "c20."] + RT_ALL),
             B("w_expr.cpp", "expr", cfg="S17d", quick=0, thorough=90, params="faults=1", oracles=["c01.", "c02.", "c04.", "c05.", "c12.", "c20."] + RT_ALL),
             B("w_expr.cpp", "expr", cfg="S17rv", quick=4, thorough=60, params="faults=1", oracles=["c01.", "c02.", "c04.", "c05.", "c12.", "c20."] + RT_ALL),
